@@ -1768,6 +1768,7 @@ class SSHConnection(SSHPacketHandler, asyncio.Protocol):
         """Send an SSH packet"""
 
         if (self._auth_complete and self._kex_complete and
+                pkttype != MSG_IGNORE and
                 (self._rekey_bytes_sent >= self._rekey_bytes or
                  (self._rekey_seconds and
                   time.monotonic() >= self._rekey_time))):
